@@ -61,7 +61,25 @@ def as_iter(st, v):
         keys, mp, has = st.dict_parts(v.z, kt, vt)
         return IterV(keys.n, lambda kk: Val(kt, z3.Select(keys.arr, kk)))
     if k in ('set', 'setv'):
-        raise Undecided('iteration over a set (order unspecified) at line %s' % st.lineno)
+        # iteration order of a set is unspecified: an arbitrary enumeration without repetition
+        sv, et = B.set_value(st, v)
+        es = T.sort_of(et)
+        s = B.seq_fresh(st, es, 'enum')
+        kq = z3.Int('k!en')
+        jq = z3.Int('j!en')
+        x = z3.Const('x!en', es)
+        wit = z3.Function('enumidx!%d' % st.nfresh, es, I)
+        st.assume(s.n >= 0)
+        if k == 'set':
+            st.assume(s.n == st.set_card(v.z, et))
+        st.assume(z3.ForAll([kq], z3.Implies(z3.And(0 <= kq, kq < s.n),
+                                             z3.And(z3.Select(sv, z3.Select(s.arr, kq)),
+                                                    wit(z3.Select(s.arr, kq)) == kq)),
+                            patterns=[z3.Select(s.arr, kq)]))
+        st.assume(z3.ForAll([x], z3.Implies(z3.Select(sv, x),
+                                            z3.And(0 <= wit(x), wit(x) < s.n, z3.Select(s.arr, wit(x)) == x)),
+                            patterns=[z3.Select(sv, x)]))
+        return IterV(s.n, lambda kk: Val(et, z3.Select(s.arr, kk)))
     raise Undecided('iteration over %r at line %s' % (v.t, st.lineno))
 
 
